@@ -46,7 +46,19 @@ def build_eq(topo, opts):
         eq, full = E.make_circular(opts)
         return eq, full
     if topo == "XPT":
-        raise NotImplementedError("XPT handled by torpex driver")
+        # the isolated X-point of TORPEX: the shipped coil set, sizes from the configuration
+        from hypnotoad.cases import torpex
+
+        eqo, mo = torpex.parseInput(os.path.join(os.environ.get("VERIF_REPO", "/repo"), "examples/torpex-xpoint/torpex-coils.yaml"))
+        for k in list(mo):
+            if k.startswith(("nx_", "ny_")) or k == "y_boundary_guards":
+                del mo[k]
+        mo.update(opts)
+        with E.quiet():
+            eq = torpex.TORPEXMagneticField(eqo, mo)
+            mo.update(eq.user_options)
+            eq.makeRegions()
+        return eq, mo
     geom = E.TOPO_GEOM[topo]
     o = dict(opts)
     o.setdefault("psinorm_core", 0.9)
